@@ -1,7 +1,9 @@
+#![feature(get_mut_unchecked)]
 //! `hexec`: run histories on the real `cactusref::Rc` (and on `std::rc::Rc`) and print a
 //! canonical transcript for comparison with the Lean model driver.
 
 mod alloc_track;
+mod apidiff;
 mod ops;
 
 use std::io::{Read, Write};
@@ -193,6 +195,11 @@ mod stdrc {
 fn main() {
     let args: Vec<String> = std::env::args().collect();
     let mode = args.get(1).map(String::as_str).unwrap_or("cactus");
+    if mode == "apidiff" {
+        alloc_track::TRACK.store(false, Relaxed);
+        let seeds: u64 = args.get(2).and_then(|x| x.parse().ok()).unwrap_or(20);
+        std::process::exit(apidiff::main(seeds));
+    }
     if mode == "bigring" {
         let shape = args.get(2).cloned().unwrap_or_else(|| "ring".into());
         let n: usize = args.get(3).and_then(|x| x.parse().ok()).unwrap_or(1000);
@@ -211,6 +218,10 @@ fn main() {
                 std::process::exit(1);
             }
         }
+    }
+    if mode != "cactus" && mode != "std" && mode != "bigring" && mode != "apidiff" {
+        eprintln!("unknown mode {}", mode);
+        std::process::exit(2);
     }
     let cleanup = !args.iter().any(|a| a == "--no-cleanup");
     std::panic::set_hook(Box::new(|_| {}));
